@@ -31,7 +31,7 @@ ALL_KINDS = LEAF + COMPOUND
 
 RAISE_KINDS = [
     "r_expr", "r_code2", "r_inline", "r_mexpr", "r_call", "r_filter", "r_code1", "r_code3", "r_codei",
-    "r_modtop", "r_modend", "r_ctl",
+    "r_modtop", "r_modend", "r_ctl", "r_forloop",
 ]
 WARN_KINDS = ["w_expr", "w_is", "w_mexpr", "w_code2", "w_ctl", "w_mod", "w_modwarn", "w_defdefault"]
 TOP_ONLY_PLANTS = {"w_mod", "w_modwarn"}
@@ -472,6 +472,10 @@ class Lowerer:
         elif p == "r_ctl":
             f.w("% if 1/0:" + nl + "% endif" + nl)
             ops.append(("if", L, "1/0", [], []))
+        elif p == "r_forloop":
+            # the iterable expression of a '% for' whose body uses the loop context fails while it is evaluated
+            f.w("% for j in 1/0:" + nl + "${loop.index}" + nl + "% endfor" + nl)
+            ops.append(("for", L, "1/0", [("loopidx", L + 1), ("lit", nl)]))
         # ---- warnings
         elif p == "w_expr":
             f.w("${'\\d'}" + nl)
